@@ -540,6 +540,20 @@ func relSpelling(r *rand.Rand, from, to string, ptr []string, vary bool) string 
 		if frag == "" {
 			return "#"
 		}
+		if vary && r.Intn(8) == 0 {
+			// the document named by its file name, by ./file or by its URL: still a reference into the document itself
+			fu, err := url.Parse(from)
+			if err == nil && fu.RawQuery == "" {
+				switch r.Intn(3) {
+				case 0:
+					return (&url.URL{Path: path.Base(fu.Path)}).EscapedPath() + frag
+				case 1:
+					return "./" + (&url.URL{Path: path.Base(fu.Path)}).EscapedPath() + frag
+				default:
+					return from + frag
+				}
+			}
+		}
 		return frag
 	}
 	fu, _ := url.Parse(from)
